@@ -6,7 +6,7 @@ ENGINE = 'UNIT'
 LEVEL = 'exploration'
 TECHNIQUE = 'runtime contract monitor on real find_prime_root and on the fields chosen by SecInt/SecFxp in real runtimes (m,t,k varied); primality and multiplicative order by an independent reference'
 RULE = ('case = (l, blum, n) for find_prime_root; (m, t, k, l, f) for secure types; non-trivial = l >= 3; distinct by that tuple')
-EXHAUSTIVE = 'find_prime_root: all l in 1..128 (quick) / 1..256 (thorough) x blum x n in {1,2,3,5,7,11,13,257,65537,4,6,100}'
+EXHAUSTIVE = 'find_prime_root: all l in 1..128 (quick) / 1..320 (thorough) x blum x n in {1,2,3,5,7,11,13,257,65537,4,6,100}'
 ASSUMPTIONS = ['deterministic Miller-Rabin reference (vlib/oracles/ref.py)', 'blum=False with n>2 is outside the domain (asserted by the function itself)']
 REQUIRE = {'any': {'find_prime_root_checked': 500, 'sectype_fields_checked': 300}}
 LEVEL_TEXT = 'exploration, complete over the bounded grid of (l, blum, n) and a grid of secure type parameters in configurations (1,0),(3,1),(7,3)'
@@ -16,7 +16,7 @@ NS = [1, 2, 3, 5, 7, 11, 13, 257, 65537, 4, 6, 100]
 
 
 def shards(tier, seed):
-    L = 128 if tier == 'quick' else 256
+    L = 128 if tier == 'quick' else 320
     out = [{'name': f'fpr-{b}', 'kind': 'fpr', 'lo': lo, 'hi': hi} for b, (lo, hi) in enumerate([(1, L // 4), (L // 4 + 1, L // 2), (L // 2 + 1, 3 * L // 4), (3 * L // 4 + 1, L)])]
     for (m, t) in [(1, 0), (3, 1), (7, 3), (5, 0)]:
         for k in (1, 8, 30, 40):
